@@ -14,7 +14,7 @@ RULE = ("driver family 'respond': 1-2 simulated interfaces (IPv4 / IPv6 / both, 
 
 def run(tier, seed, t0):
     return daemon.run_group(PROP, tier, seed, t0, [("respond", []), ("conflict", [], "TraceRespond", "TraceRespond.cfg", 60, 800)], "TraceRespond", "TraceRespond.cfg", PREFIXES,
-                            [("MCResponder", "MCResponder.cfg")], ["C09.goodbye","C09.repeat"], ASSUME, RULE)
+                            [("MCResponder", "MCResponder.cfg")], ["C09.goodbye","C09.repeat","C09.loop-bye2"], ASSUME, RULE)
 
 
 def replay(path, seed):
